@@ -299,15 +299,16 @@ impl<T> RawTable<T> {
         if bucket.in_main {
             self.table.replace_bucket_with(bucket.bucket, f)
         } else if let Some(ref mut lo) = self.leftovers {
-            let items = &mut lo.items;
-            let b = bucket.bucket.clone();
-            let still_occupied = lo.table.replace_bucket_with(b, move |t| {
-                let v = f(t);
-                if v.is_none() && !OldTable::<T>::IS_ZST {
-                    items.reflect_remove(&bucket.bucket);
-                }
-                v
-            });
+            // hashbrown vacates the bucket before it calls `f`, so the cached iterator has to
+            // learn about the removal first (which also covers `f` panicking). If `f` puts an
+            // element back, the table is exactly as it was before the call, so the iterator
+            // state from before the call is valid again.
+            let before = lo.items.clone();
+            lo.reflect_remove(&bucket.bucket);
+            let still_occupied = lo.table.replace_bucket_with(bucket.bucket, f);
+            if still_occupied {
+                lo.items = before;
+            }
             lo.refresh_if_zst();
             still_occupied
         } else {
